@@ -125,6 +125,19 @@ def _run(pm: ProgramModel, ctx: Ctx, mb: ModelBuilder, cd: Codec) -> None:
     }
     for key, tree_ in nest.items():
         cd.report("GROUPING", f"nesting:{key}", cd.roundtrip(ctc_model(mb, [tree_])), f"nested constraint ({key})", cc)
+    # names differing only in letter case are different features, each with children and attributes of its own
+    root = mb.feature("Root")
+    ab_, AB_ = mb.feature("Ab"), mb.feature("AB")
+    mb.relation(root, [ab_], 1, 1)
+    mb.relation(root, [AB_], 0, 1)
+    mb.relation(ab_, [mb.feature("X1"), mb.feature("X2")], 1, 2)
+    mb.relation(AB_, [mb.feature("Y1")], 1, 1)
+    ab_._f["attributes"].append(mb.attribute("cost", "5", ab_, domain=AObj(
+        "Domain", range_list=[AObj("Range", min_value=0, max_value=10)], element_list=[]), null="0"))
+    AB_._f["attributes"].append(mb.attribute("level", "low", AB_, domain=AObj(
+        "Domain", range_list=[], element_list=["low", "high"]), null="high"))
+    cd.report("FIELDS", "names-differing-in-case-with-children", cd.roundtrip(mb.model(root, [])),
+              "features Ab and AB, each with children and an attribute of its own", ("relation", "parent", "name", "attribute"))
     # names differing only in letter case are different features; equal constraints are both kept
     root = mb.feature("Root")
     for nme in ("Db", "DB", "Log"):
